@@ -19966,6 +19966,12 @@ impl<
 						> monitor.get_cur_counterparty_commitment_number()
 					|| channel.context.get_latest_monitor_update_id()
 						< monitor.get_latest_update_id()
+					|| channel.on_startup_blocked_mon_update_missing_from_monitor(
+						monitor.get_latest_update_id(),
+						monitor.get_min_seen_secret(),
+						monitor.get_cur_counterparty_commitment_number(),
+						monitor.get_cur_holder_commitment_number(),
+					)
 				{
 					// But if the channel is behind of the monitor, close the channel:
 					log_error!(
@@ -19978,6 +19984,15 @@ impl<
 					{
 						log_error!(logger, " The ChannelMonitor is at update_id {} but the ChannelManager is at update_id {}.",
 							monitor.get_latest_update_id(), channel.context.get_latest_monitor_update_id());
+					}
+					if channel.on_startup_blocked_mon_update_missing_from_monitor(
+						monitor.get_latest_update_id(),
+						monitor.get_min_seen_secret(),
+						monitor.get_cur_counterparty_commitment_number(),
+						monitor.get_cur_holder_commitment_number(),
+					) {
+						log_error!(logger, " The ChannelMonitor is at update_id {} but lacks a blocked ChannelMonitorUpdate of the ChannelManager with an update_id no higher than that.",
+							monitor.get_latest_update_id());
 					}
 					if channel.get_cur_holder_commitment_transaction_number()
 						> monitor.get_cur_holder_commitment_number()
